@@ -27,7 +27,7 @@ PROBES = ["rebind_prefix", "delete_used_namespace_rejected", "undeclared_prefix_
 
 ANY = -1
 PREFIXES = ["p", "q", "r", ""]
-URIS = ["u0", "u1", "u2", "u3"]
+URIS = ["u0", "u1", "u2", "u3", "*"]  # ("*" is an ordinary URI; "any namespace" is the prefix *)
 LOCALS = ["a", "b", "c", "d"]
 
 
@@ -442,7 +442,8 @@ class World:
         texts, meant, undeclared = [], [], False
         for parts in sels:
             t, m = "", []
-            for idx, (kind, prefix, local) in enumerate(parts):
+            for idx, part in enumerate(parts):
+                kind, prefix, local = part[0], part[1], part[2]
                 if kind == "type":
                     if idx:
                         t += " "
@@ -470,6 +471,8 @@ class World:
                     muri = mapping.get(prefix)
                     if muri is None:
                         undeclared = True
+                if pre and len(parts) > idx and len(parts[idx]) > 3 and parts[idx][3]:
+                    pre += "/**/"  # a comment between prefix and name: same meaning
                 if kind == "not":
                     t += f":not({pre}{name})"
                     m.append(("negation-type-selector", muri, name, default))
@@ -498,7 +501,7 @@ def gen_sel(r):
     for i in range(n):
         kind = r.choice(["type", "type", "universal"])
         prefix = r.choice([None, None, "p", "q", "r", "*", "", "zz"])
-        parts.append((kind, prefix, r.choice(LOCALS)))
+        parts.append((kind, prefix, r.choice(LOCALS), r.random() < 0.15))
         if r.random() < 0.3:
             parts.append(("attr", r.choice([None, "p", "q", "*", ""]), r.choice(LOCALS)))
         elif r.random() < 0.25:
